@@ -371,25 +371,49 @@ class Repo:
         return None
 
     # ------------------------------------------------------- constant folding
-    def fold(self, expr: ast.expr, mod: Module, cls: ClassInfo | None = None, _depth: int = 0) -> Any:
-        """Fold a literal expression; returns NOFOLD when not a constant."""
+    def fold(self, expr: ast.expr, mod: Module, cls: ClassInfo | None = None, _depth: int = 0, body: bool = False) -> Any:
+        """Fold a literal expression; returns NOFOLD when not a constant.  `body=True`: the expression sits in the class
+        body of `cls` (bare names see class attributes); otherwise it sits in a method (bare names are locals/globals,
+        `self.X` is a constant only when X is not an instance field)."""
         try:
-            return self._fold(expr, mod, cls, _depth)
+            return self._fold(expr, mod, cls, _depth, body)
         except _NoFold:
             return NOFOLD
 
-    def _fold(self, e: ast.expr, mod: Module, cls: ClassInfo | None, d: int) -> Any:
+    def is_instance_attr(self, ci: ClassInfo, name: str) -> bool:
+        """X may differ per instance: dataclass-style annotated field (no ClassVar/Final) or assigned through `self.X`
+        somewhere in the class family."""
+        key = (ci.ref, name)
+        memo = self.__dict__.setdefault("_inst_attr_memo", {})
+        if key in memo:
+            return memo[key]
+        fam = list(self.mro(ci)) + [c for c in self.subclasses(ci, strict=True)]
+        res = False
+        for c in fam:
+            ann = c.annotations.get(name)
+            if ann is not None:
+                at = ast.unparse(ann)
+                if "ClassVar" not in at and "Final" not in at:
+                    res = True
+            for m in c.methods.values():
+                for n in ast.walk(m.node):
+                    if isinstance(n, ast.Attribute) and n.attr == name and isinstance(n.ctx, (ast.Store, ast.Del)) and isinstance(n.value, ast.Name) and n.value.id == "self":
+                        res = True
+        memo[key] = res
+        return res
+
+    def _fold(self, e: ast.expr, mod: Module, cls: ClassInfo | None, d: int, body: bool = False) -> Any:
         if d > 20:
             raise _NoFold
         if isinstance(e, ast.Constant):
             return e.value
         if isinstance(e, (ast.Tuple, ast.List)):
-            vals = [self._fold(x, mod, cls, d + 1) for x in e.elts]
+            vals = [self._fold(x, mod, cls, d + 1, body) for x in e.elts]
             return tuple(vals) if isinstance(e, ast.Tuple) else vals
         if isinstance(e, ast.Set):
-            return frozenset(self._fold(x, mod, cls, d + 1) for x in e.elts)
+            return frozenset(self._fold(x, mod, cls, d + 1, body) for x in e.elts)
         if isinstance(e, ast.UnaryOp):
-            v = self._fold(e.operand, mod, cls, d + 1)
+            v = self._fold(e.operand, mod, cls, d + 1, body)
             if isinstance(e.op, ast.USub):
                 return -v
             if isinstance(e.op, ast.UAdd):
@@ -399,8 +423,8 @@ class Repo:
             if isinstance(e.op, ast.Not):
                 return not v
         if isinstance(e, ast.BinOp):
-            a = self._fold(e.left, mod, cls, d + 1)
-            b = self._fold(e.right, mod, cls, d + 1)
+            a = self._fold(e.left, mod, cls, d + 1, body)
+            b = self._fold(e.right, mod, cls, d + 1, body)
             ops = {
                 ast.Add: lambda: a + b, ast.Sub: lambda: a - b, ast.Mult: lambda: a * b,
                 ast.Div: lambda: a / b, ast.FloorDiv: lambda: a // b, ast.Mod: lambda: a % b,
@@ -417,20 +441,20 @@ class Repo:
         if isinstance(e, ast.Call):
             fn = ast.unparse(e.func)
             if fn == "float" and len(e.args) == 1:
-                return float(self._fold(e.args[0], mod, cls, d + 1))
+                return float(self._fold(e.args[0], mod, cls, d + 1, body))
             if fn == "int" and len(e.args) == 1:
-                return int(self._fold(e.args[0], mod, cls, d + 1))
+                return int(self._fold(e.args[0], mod, cls, d + 1, body))
             if fn in ("frozenset", "set", "tuple") and len(e.args) == 1:
-                v = self._fold(e.args[0], mod, cls, d + 1)
+                v = self._fold(e.args[0], mod, cls, d + 1, body)
                 return frozenset(v) if fn != "tuple" else tuple(v)
             if fn == "bytes.fromhex" and len(e.args) == 1:
-                return bytes.fromhex(self._fold(e.args[0], mod, cls, d + 1))
+                return bytes.fromhex(self._fold(e.args[0], mod, cls, d + 1, body))
             raise _NoFold
         if isinstance(e, ast.Name):
-            if cls is not None:
+            if cls is not None and body:
                 hit = self.class_attr_expr(cls, e.id)
                 if hit is not None and hit[0] is not e:
-                    return self._fold(hit[0], hit[1].module, hit[1], d + 1)
+                    return self._fold(hit[0], hit[1].module, hit[1], d + 1, True)
             tgt = self.resolve(mod.name, e.id)
             if isinstance(tgt, tuple) and tgt[0] == "const":
                 return self._fold(tgt[1], tgt[2], None, d + 1)
@@ -440,19 +464,19 @@ class Repo:
             if e.attr == "value":
                 inner = self.resolve_expr(mod, e.value)
                 if isinstance(inner, tuple) and inner[0] == "classattr":
-                    return self._fold(inner[1], inner[2].module, inner[2], d + 1)
+                    return self._fold(inner[1], inner[2].module, inner[2], d + 1, True)
             tgt = self.resolve_expr(mod, e)
             if isinstance(tgt, tuple) and tgt[0] == "const":
                 return self._fold(tgt[1], tgt[2], None, d + 1)
             if isinstance(tgt, tuple) and tgt[0] == "classattr":
                 owner: ClassInfo = tgt[2]
                 if self.is_enum(owner):
-                    return EnumMember(owner.ref, tgt[3], self.fold(tgt[1], owner.module, owner, d + 1))
-                return self._fold(tgt[1], owner.module, owner, d + 1)
+                    return EnumMember(owner.ref, tgt[3], self.fold(tgt[1], owner.module, owner, d + 1, True))
+                return self._fold(tgt[1], owner.module, owner, d + 1, True)
             if isinstance(e.value, ast.Name) and e.value.id in ("self", "cls") and cls is not None:
                 hit = self.class_attr_expr(cls, e.attr)
-                if hit is not None:
-                    return self._fold(hit[0], hit[1].module, hit[1], d + 1)
+                if hit is not None and not (e.value.id == "self" and self.is_instance_attr(cls, e.attr)):
+                    return self._fold(hit[0], hit[1].module, hit[1], d + 1, True)
             raise _NoFold
         raise _NoFold
 
@@ -460,7 +484,7 @@ class Repo:
         hit = self.class_attr_expr(ci, name)
         if hit is None:
             return NOFOLD
-        return self.fold(hit[0], hit[1].module, ci)
+        return self.fold(hit[0], hit[1].module, ci, body=True)
 
     def module_const(self, modname: str, name: str) -> Any:
         tgt = self.resolve(modname, name)
@@ -479,7 +503,7 @@ class Repo:
                 auto_n += 1
                 out[name] = auto_n
             else:
-                out[name] = self.fold(expr, ci.module, ci)
+                out[name] = self.fold(expr, ci.module, ci, body=True)
         return out
 
 
